@@ -9,6 +9,8 @@ import Blue.Proofs.SnapRefs
 import Blue.Proofs.VerifierWitness
 import Blue.Proofs.VerifierKeeps
 import Blue.Proofs.ManiOpenBytes
+import Blue.Proofs.VerifierNewest
+import Blue.Proofs.OrphansLive
 import Blue.Proofs.ConstsTieC08
 /-! # Property C08 — no needed file is ever removed; clean-up removes only unreferenced files
 
@@ -31,6 +33,14 @@ Reader snapshots: as repaired (D-5) a cursor keeps its `VersionRef` for its whol
 reference is a `snapshot` event of `Blue.FileRefs` that is not yet released, so `live_files_stay`
 / `refcount_run` cover the files of every version a cursor still holds (the cursor side is C07:
 `cursor_files_present`).
+
+The two newest manifest entries (`MANIFEST.<newest>` and `MANIFEST`) are never processed by a pass,
+but `last_removals` ranges over them (it is computed BEFORE the two `entries.pop()`:
+`source_ranges_tied`): `verifier_keeps_newest_two_removed` is the semantic statement,
+`verifier_narrowed_range_loses_copy` the counterexample for a range narrowed to the processed
+entries.  The orphan scan reads the live `MANIFEST` as it is AT THE TIME OF THE SCAN, i.e. with
+the edits log recovery wrote during the same open (`cleanup_orphans_keeps_listed_after_recovery`;
+`cleanup_skipping_live_moves_relisted` is the counterexample for a scan that leaves it out).
 
 What is a THEOREM ABOUT THE MODEL'S ALPHABET rather than about a behaviour (said here once):
 `verifier_never_removes_listed` holds because the model's verifier has no action on `sst/` or
@@ -227,6 +237,59 @@ example : (pass chainChecker dM).2 = .ok ∧ (pass chainChecker dM).1.length = 7
     ∧ (final chainChecker dM).trash = [[120, 46, 115, 115, 116]] ∧ (final chainChecker dM).frags.map (·.1) = [3]
     ∧ (pass chainCheckerAsWas dM).2 = .corrupt ∧ (final chainCheckerAsWas dM).trash = [] := dM_kept
 
+/-- **The copies the two newest entries still need stay.**  `LsmVerifier::verify` never processes
+    the newest numbered fragment and `MANIFEST`, but `last_removals` ranges over them: in a sorted
+    directory in which none of these names is logged in `verify/` (a fresh one: nothing is), the
+    trash copy of every file whose removal the newest numbered fragment or `MANIFEST` records
+    (`newestTwoRm`) — whatever older fragments removed and re-created the file before — is in
+    `trash/` after every prefix of the pass, whatever the checker.  For `MANIFEST` this is
+    `verifier_keeps_manifest_removed`; for the newest numbered fragment it needs that a pass acts
+    only on the numbers of its entries (`nums_of_pass`), so that the newest fragment is still in
+    `mani/`, and its removals in `laterRm`, at every intent. -/
+theorem verifier_keeps_newest_two_removed (C : Checker A) (hC : C.asWas = false) (d : Dir A) (hs : Sorted d)
+    (hv : ∀ x, x ∈ d.vstrs → ∀ r, r ∈ newestTwoRm d → x ≠ trashSst r) (k : Nat) (r : Name)
+    (hr : r ∈ newestTwoRm d) (ht : trashSst r ∈ d.trash) : trashSst r ∈ (run d ((pass C d).1.take k)).trash :=
+  pass_keeps_newest_two_removed C hC d hs hv k r hr ht
+
+/-- the pass with the RANGE of `last_removals` as a parameter (`passL`, `Blue.Model.VerifierRange`)
+    is the pass at the range the code has: every fragment numbered above the one processed, the
+    newest one included, and `MANIFEST` (`laterRm`); and the range narrowed to the processed entries
+    (`laterRmNarrow`: `last_removals` called after the two pops) knows of no removal the full one
+    does not -/
+theorem verifier_range_is_all_entries (C : Checker A) (d : Dir A) :
+    passL laterRm C d = pass C d ∧ ∀ n r, r ∈ laterRmNarrow d n → r ∈ laterRm d n :=
+  ⟨passL_laterRm C d, fun n r h => laterRmNarrow_sub d n r h⟩
+
+/-- **with the range narrowed to the processed entries** (counterexample; `last_removals` called
+    after `entries.pop(); entries.pop()`): `x` removed by fragment 1, added again by fragment 2,
+    removed again by the NEWEST numbered fragment (`dN`) or by `MANIFEST` (`dM`), one copy in
+    `trash/`.  The pass gives the copy to fragment 1 and stops at fragment 2 with an error (`x` is
+    in neither `trash/` nor `sst/`); every later pass, with either range, stops there too (the
+    verifier is wedged, fragments 2 and 3 are never unlinked).  As the code is the pass goes
+    through and leaves the copy (`dN_kept`, `dM_kept`). -/
+theorem verifier_narrowed_range_loses_copy :
+    ((passL laterRmNarrow chainChecker dN).2 = .corrupt ∧ (finalL laterRmNarrow chainChecker dN).trash = []
+      ∧ (passL laterRmNarrow chainChecker (finalL laterRmNarrow chainChecker dN)).2 = .corrupt
+      ∧ (pass chainChecker (finalL laterRmNarrow chainChecker dN)).2 = .corrupt
+      ∧ (final chainChecker (finalL laterRmNarrow chainChecker dN)).frags.map (·.1) = [2, 3]) ∧
+    ((passL laterRmNarrow chainChecker dM).2 = .corrupt ∧ (finalL laterRmNarrow chainChecker dM).trash = []
+      ∧ (pass chainChecker (finalL laterRmNarrow chainChecker dM)).2 = .corrupt
+      ∧ (final chainChecker (finalL laterRmNarrow chainChecker dM)).frags.map (·.1) = [2, 3]) :=
+  narrowed_range_loses_copy
+
+/-- non-vacuity: `dN` (last removal in the newest numbered fragment, NOT in `MANIFEST`) and `dM` (in
+    `MANIFEST`) meet every hypothesis of `verifier_keeps_newest_two_removed`; on `dN` the pass as
+    the code is verifies and unlinks fragments 1 and 2 and the copy is still there -/
+example (k : Nat) : trashSst [120] ∈ (run dN ((pass chainChecker dN).1.take k)).trash :=
+  verifier_keeps_newest_two_removed chainChecker rfl dN dN_hyps.1 (fun x hx => by rw [dN_hyps.2.1] at hx; cases hx) k [120]
+    dN_hyps.2.2.1 dN_hyps.2.2.2.2
+example (k : Nat) : trashSst [120] ∈ (run dM ((pass chainChecker dM).1.take k)).trash :=
+  verifier_keeps_newest_two_removed chainChecker rfl dM dM_newest_hyps.1 (fun x hx => by rw [dM_hyps.1] at hx; cases hx) k [120]
+    dM_newest_hyps.2 dM_hyps.2.2
+example : [120] ∉ dN.live.flatMap removedBy ∧ (pass chainChecker dN).2 = .ok
+    ∧ (final chainChecker dN).trash = [[120, 46, 115, 115, 116]] ∧ (final chainChecker dN).frags.map (·.1) = [3] :=
+  ⟨dN_hyps.2.2.2.1, dN_kept⟩
+
 /-- **as the code was** (counterexample, D-28): `x` removed by fragment 1, added again by fragment 2,
     removed again by fragment 3, one copy in `trash/`: the pass gives the copy to fragment 1, stops
     at fragment 2 with an error (`x` is neither in `trash/` nor in `sst/`), and so does every pass
@@ -330,12 +393,59 @@ open Blue.Orphans Blue.Mani
     reopen — `chain_holds` —, after any number of incarnations, crashes during a reopen included —
     `chain_holds_any_incarnations` —, and for what the verifier leaves of it,
     `reopen_after_verifier`), the set
-    the scan collects holds no name the manifest state lists — whether the file was removed and
+    the scan collects (over `frags` = every entry of `mani/` AT THE TIME OF THE SCAN, the live
+    `MANIFEST` last and with whatever was appended to it since the rollover: see
+    `cleanup_orphans_keeps_listed_after_recovery`) holds no name the manifest state lists — whether the file was removed and
     added by one edit, removed by one edit and re-added by a later one, or re-added in a later
     fragment — so nothing listed is renamed to `trash/`. -/
 theorem cleanup_orphans_keeps_listed (sst trash : List Name) (frags : List (List Edit)) (hc : chainOk frags = true) :
     (∀ x, x ∈ listed frags → x ∉ scan frags) ∧ (∀ x, x ∈ moved sst trash frags → x ∉ listed frags) :=
   ⟨scan_clear_of_listed frags hc, moved_not_listed sst trash frags hc⟩
+
+/-- **the scan's input is the live `MANIFEST` AS IT IS AT THE TIME OF THE SCAN.**  `frags` above is
+    what `list_mani_fragments` returns when `cleanup_orphans` runs, `MANIFEST` last; at
+    `KeyValueStore::open` that is `scanInput numbered rollup recovery`: the numbered fragments, then
+    the roll-up the open wrote FOLLOWED BY the edits log recovery (`recover_one`) appended before the
+    clean-up ran.  On a chained directory nothing the manifest state lists after those edits is
+    renamed — in particular not a file an older fragment removed and recovery lists again. -/
+theorem cleanup_orphans_keeps_listed_after_recovery (sst trash : List Name) (numbered : List (List Edit)) (rollup : Edit)
+    (recovery : List Edit) (hc : chainOk (scanInput numbered rollup recovery) = true) :
+    listed (scanInput numbered rollup recovery) = (Blue.ManiCrash.replay maniAlgebra (rollup :: recovery)).strs ∧
+    ∀ x, x ∈ moved sst trash (scanInput numbered rollup recovery) →
+      x ∉ (Blue.ManiCrash.replay maniAlgebra (rollup :: recovery)).strs :=
+  ⟨listed_scanInput numbered rollup recovery, cleanup_keeps_listed_after_recovery sst trash numbered rollup recovery hc⟩
+
+/-- without recovery edits (`LsmTree::open`: `MANIFEST` holds the roll-up and nothing else) a scan
+    that leaves `MANIFEST` out collects the same set — why leaving it out looks harmless -/
+theorem cleanup_skipping_live_same_without_recovery (numbered : List (List Edit)) (rollup : Edit) :
+    scanSkipLive (scanInput numbered rollup []) = scan (scanInput numbered rollup []) :=
+  skip_live_same_without_recovery numbered rollup
+
+/-- **a scan that leaves the live `MANIFEST` out renames a listed file** (counterexample; the crash
+    image of the directed case `relisted_case` of the harness): the flush thread had ingested `X2`
+    (log not yet in `trash/`), the compaction thread had written `-X1 -X2 +Y` (version not yet
+    installed); the open rolls over, log recovery lists `X2` again in `MANIFEST`.  `exL` is chained,
+    the state lists `X2` and `Y`; the scan as the code has it collects `X1` alone, the scan without
+    `MANIFEST` collects `X1` and `X2`, and the clean-up renames `X2` although it is listed. -/
+theorem cleanup_skipping_live_moves_relisted :
+    chainOk exL = true ∧ listed exL = [[98], [121]] ∧ scan exL = [[97]] ∧ scanSkipLive exL = [[97], [98]]
+    ∧ moved [[97], [98], [121]] [] exL = [[97]]
+    ∧ ([98] ∈ movedSkipLive [[97], [98], [121]] [] exL ∧ [98] ∈ listed exL) :=
+  skip_live_moves_relisted
+
+/-- non-vacuity of `cleanup_orphans_keeps_listed_after_recovery`: `exL` is a `scanInput` with one
+    recovery edit and is chained -/
+example := cleanup_orphans_keeps_listed_after_recovery [[97], [98], [121]] [] exLnumbered exLrollup exLrecovery
+  cleanup_skipping_live_moves_relisted.1
+
+/-- the two facts the theorems above lean on, AS THE SOURCE STATES THEM (regenerated by
+    `translate/extract.py` on every run): `LsmVerifier::verify` has popped no entry when it calls
+    `last_removals(&entries)`, and `cleanup_orphans` drops no entry of `list_mani_fragments` before
+    its loop -/
+theorem source_ranges_tied :
+    Blue.Generated.lsmtkVerifierPopsBeforeLastRemovals = Blue.Verifier.popsBeforeLastRemovals
+    ∧ Blue.Generated.lsmtkCleanupOrphansEntriesDropped = Blue.Orphans.entriesDropped :=
+  ⟨Blue.ConstsTie.c08_last_removals_before_pops.symm, Blue.ConstsTie.c08_cleanup_scans_every_entry.symm⟩
 
 /-- the hypothesis holds: after ONE crash at any system call of any crash-free history of manifest
     edits and rollovers from the empty directory, under either persistence model, followed by a
@@ -384,12 +494,19 @@ end Blue.Props.C08
 #print axioms Blue.Props.C08.verifier_keeps_needed_trash
 #print axioms Blue.Props.C08.verifier_keeps_manifest_removed
 #print axioms Blue.Props.C08.verifier_removed_recreated_removed
+#print axioms Blue.Props.C08.verifier_keeps_newest_two_removed
+#print axioms Blue.Props.C08.verifier_range_is_all_entries
+#print axioms Blue.Props.C08.verifier_narrowed_range_loses_copy
 #print axioms Blue.Props.C08.verifier_acts_legal
 #print axioms Blue.Props.C08.verifier_never_removes_listed
 #print axioms Blue.Props.C08.verifier_crash_safe
 #print axioms Blue.Props.C08.verifier_crash_safe_any_restarts
 #print axioms Blue.Props.C08.reopen_after_verifier
 #print axioms Blue.Props.C08.cleanup_orphans_keeps_listed
+#print axioms Blue.Props.C08.cleanup_orphans_keeps_listed_after_recovery
+#print axioms Blue.Props.C08.cleanup_skipping_live_same_without_recovery
+#print axioms Blue.Props.C08.cleanup_skipping_live_moves_relisted
+#print axioms Blue.Props.C08.source_ranges_tied
 #print axioms Blue.Props.C08.chain_holds
 #print axioms Blue.Props.C08.chain_holds_any_incarnations
 #print axioms Blue.Props.C08.first_crash_image_in_class
